@@ -62,6 +62,7 @@ type Config struct {
 	ErrWrites    bool     `json:"errWrites"`
 	JSON         bool     `json:"json"`
 	MailGo       bool     `json:"mailGo"`
+	FoldPid      bool     `json:"foldPid"`
 }
 
 func (c Config) Has(m string) bool {
@@ -453,6 +454,7 @@ var Providers = []string{"pa", "pb"}
 func New(cfg Config) (*Instance, error) {
 	in := &Instance{Cfg: cfg, probe: map[*http.Request]*ProbeResult{}}
 	in.Store = NewStore(cfg.TotpOneTime)
+	in.Store.FoldPid = cfg.FoldPid
 	in.Sess = newClientStore("session")
 	in.Cook = newClientStore("cookie")
 	in.Mail = &Mailer{store: in.Store}
@@ -526,7 +528,7 @@ func New(cfg Config) (*Instance, error) {
 						return nil, err
 					}
 					uid := strings.TrimPrefix(tok.AccessToken, "at-uid:")
-					return map[string]string{"uid": uid, "email": uid + "@" + p + ".test"}, nil
+					return map[string]string{"uid": uid, "email": authboss.MakeOAuth2PID(p, uid)}, nil
 				},
 			}
 		}
